@@ -46,7 +46,6 @@ import (
 	"fmt"
 	"io"
 	"runtime"
-	"sync"
 
 	"github.com/cloudwego/hertz/pkg/common/bytebufferpool"
 	errs "github.com/cloudwego/hertz/pkg/common/errors"
@@ -201,17 +200,14 @@ func (c *clientRespStream) reset() {
 	c.closeCallback = nil
 	c.r = nil
 	c.broken = false
-	clientRespStreamPool.Put(c)
-}
-
-var clientRespStreamPool = sync.Pool{
-	New: func() interface{} {
-		return &clientRespStream{}
-	},
+	// The stream is not put into a pool: the response still refers to it after the application closed it
+	// (resp.BodyStream().Close()), and Response.CloseBodyStream/Reset/ReleaseResponse close it once more.
+	// A pooled object would go into the pool twice and be handed to two responses (or the late Close would
+	// end the stream of the response that got the object in between). A closed stream stays closed.
 }
 
 func convertClientRespStream(bs io.Reader, fn func(shouldClose bool) error) *clientRespStream {
-	clientStream := clientRespStreamPool.Get().(*clientRespStream)
+	clientStream := &clientRespStream{}
 	clientStream.r = bs
 	clientStream.closeCallback = fn
 	runtime.SetFinalizer(clientStream, (*clientRespStream).Close)
